@@ -118,9 +118,13 @@ def prop(case):
             err = rmse * np.sqrt(max(cov[i, i], 0.0))
             se = p.standard_error
             if p.non_negative:
+                # mapped back from log space: value * (exp(err) - 1).  The implementation caps the error at |value| when
+                # the log-space error is as large as |log(value)|; the cap is only admissible there (factor 2 margin).
                 with np.errstate(over="ignore"):
-                    ok = close(se, p.value * (np.exp(err) - 1.0), 1e-9) or close(se, abs(p.value), 1e-9)
-                tags.append("non_negative_standard_error")
+                    mapped = close(se, p.value * (np.exp(err) - 1.0), 1e-9)
+                capped = close(se, abs(p.value), 1e-9) and err >= 0.5 * abs(np.log(p.value))
+                ok = mapped or capped
+                tags.append("non_negative_standard_error" + ("_capped" if (capped and not mapped) else ""))
             else:
                 ok = close(se, err, 1e-9)
             check(ok, "stats.standard_error", lambda: f"{lab}: {se} vs rmse*sqrt(cov_ii)={err}")
